@@ -11,6 +11,11 @@ use std::collections::HashMap;
 
 pub type Res<T> = Result<T, String>;
 
+/// C12 only: a line program without a single (non-tombstoned) row is not part of the meaning that a
+/// conversion has to preserve (the writer omits empty line programs). Other users of the dump (C11:
+/// write -> read) keep DW_AT_stmt_list as written.
+pub static EMPTY_LINE_PROGRAM_IS_NOTHING: std::sync::atomic::AtomicBool = std::sync::atomic::AtomicBool::new(false);
+
 fn e<E: core::fmt::Debug>(x: E) -> String {
     // variant name only: payloads may contain pointers (ReaderOffsetId)
     crate::util::errname(&x)
@@ -341,7 +346,7 @@ pub fn dump_attr<R: Reader<Offset = usize>>(
                     }
                 }
             }
-            if !has_rows {
+            if !has_rows && EMPTY_LINE_PROGRAM_IS_NOTHING.load(std::sync::atomic::Ordering::Relaxed) {
                 return Ok(None);
             }
             "lineprogram".to_string()
